@@ -174,6 +174,7 @@ def parseOp3 (ws : List String) : Option Op3 :=
   | ["ibc2base", g, u, n, e] => do pure (.ibc (.toBase (← g.toNat?) (← u.toNat?) (← n.toNat?) (e == "1")))
   | ["base2ibc", g, u, n] => do pure (.ibc (.toIbc (← g.toNat?) (← u.toNat?) (← n.toNat?)))
   | ["ibcxfer", g, u, n] => do pure (.ibc (.xfer (← g.toNat?) (← u.toNat?) (← n.toNat?)))
+  | ["xibc", g, u, n] => do pure (.xibc (← g.toNat?) (← u.toNat?) (← n.toNat?))
   | ["depibc", c, g, u, n] => do pure (.depositIbc (← c.toNat?) (← g.toNat?) (← u.toNat?) (← n.toNat?))
   | ws => (parseOp2 ws).map .claim
 
